@@ -24,3 +24,9 @@ for f in sorted(glob.glob('evidence/*.json')):
 sys.exit(bad)
 PY
 echo "selfcheck ok"
+if [ "${1:-}" = "full" ]; then
+  for p in C01 C02 C03 C04 C05 C06 C07 C08 C09 C10 C11 C12 C13 C14 C15 C16 C17 C18 C19; do
+    ./check $p 2>&1 | tail -1 | grep -v "^OK" && { echo "FAIL: $p"; exit 1; }
+  done
+  echo "all quick checks ok"
+fi
